@@ -2,6 +2,7 @@ package main
 
 import (
 	"fmt"
+	"go/constant"
 	"os"
 	"go/types"
 	"sort"
@@ -10,6 +11,7 @@ import (
 	"time"
 
 	"golang.org/x/tools/go/ssa"
+	"golang.org/x/tools/go/ssa/ssautil"
 )
 
 // pathEnd is raised (via panic) to terminate the current path.
@@ -74,6 +76,7 @@ type Shared struct {
 	inconclusive map[string]int
 	stop      bool
 	pathCount int
+	constCache map[string][]string
 }
 
 // Sample is a concrete witness of a completed path (for evidence and for
@@ -153,6 +156,7 @@ type Engine struct {
 	doms    map[string]*bitset
 	facts   map[string]bool
 	parseResult *Value
+	depthIsFinding bool
 	domHits int
 	bufs    map[*Value][]bufSeg
 	inInit  bool
@@ -419,6 +423,7 @@ func (e *Engine) resetPath(prefix []bool) {
 	e.doms = map[string]*bitset{}
 	e.facts = map[string]bool{}
 	e.parseResult = nil
+	e.depthIsFinding = false
 	e.bufs = map[*Value][]bufSeg{}
 	e.expectPanic = ""
 	e.atomSeq = 0
@@ -446,6 +451,11 @@ func (e *Engine) runPath(prefix []bool) {
 			case "outside":
 				e.st.Outside++
 			case "unwind":
+				if e.depthIsFinding && strings.HasPrefix(pe.msg, "call depth") {
+					e.st.Panics++
+					e.reportFinding("panic", "panic: unbounded recursion (call depth bound exceeded on a finite input)", pe.msg)
+					return
+				}
 				e.st.Unwind++
 				e.sh.noteInconclusive("unwind: " + pe.msg)
 			case "unsupported", "marshalerr":
@@ -618,6 +628,29 @@ func (e *Engine) inScope(fn *ssa.Function) bool {
 	return strings.HasPrefix(f.Pkg.Pkg.Path(), e.sh.modPath)
 }
 
+// libExecPkgs: library packages whose (small, pure) functions may be executed
+// from their own SSA when no intrinsic or model exists. Their package-level
+// variables stay off limits (reading one ends the path as unsupported), and
+// anything they call outside this list needs an intrinsic as usual.
+var libExecPkgs = map[string]bool{
+	"gopkg.in/yaml.v3": true, "slices": true, "maps": true, "sort": true, "strconv": true,
+	"unicode": true, "unicode/utf8": true, "path": true, "strings": true, "bytes": true, "cmp": true,
+}
+
+func (e *Engine) libExecAllowed(fn *ssa.Function) bool {
+	f := fn
+	for f.Parent() != nil {
+		f = f.Parent()
+	}
+	if o := f.Origin(); o != nil {
+		f = o
+	}
+	if f.Pkg == nil || fn.Blocks == nil {
+		return false
+	}
+	return libExecPkgs[f.Pkg.Pkg.Path()]
+}
+
 var pureLibWhitelist = map[string]bool{
 	"slices.Contains": true, "slices.Index": true, "slices.IndexFunc": true, "slices.ContainsFunc": true,
 	"slices.Equal": true, "maps.Keys": false,
@@ -641,7 +674,7 @@ func (e *Engine) call(fn *ssa.Function, args []Value) Value {
 	if fn.Name() == "init" && fn.Synthetic != "" && !e.inScope(fn) {
 		return nil // library package initialisers are not executed
 	}
-	if !e.inScope(fn) && !e.libWhitelisted(fn) {
+	if !e.inScope(fn) && !e.libWhitelisted(fn) && !e.libExecAllowed(fn) {
 		unsupported("no model for library function %s", fn.String())
 	}
 	if fn.Blocks == nil {
@@ -688,7 +721,7 @@ func (e *Engine) callFuncVal(fv FuncVal, args []Value) Value {
 	if fv.fn.Blocks == nil {
 		unsupported("external closure %s", fv.fn.String())
 	}
-	if !e.inScope(fv.fn) {
+	if !e.inScope(fv.fn) && !e.libExecAllowed(fv.fn) {
 		unsupported("no model for library closure %s", fv.fn.String())
 	}
 	return e.run(fv.fn, args, fv.bindings)
@@ -705,3 +738,55 @@ func sortedKeys(m map[string]int) []string {
 }
 
 var traceQueries = os.Getenv("VP_TRACE") != ""
+
+// strConsts lists the distinct string constants (1..40 bytes) in the SSA of
+// the functions of the harness package whose name (or whose enclosing
+// function's name) is in the comma-separated list.
+func (sh *Shared) strConsts(names string) []string {
+	sh.mu.Lock()
+	defer sh.mu.Unlock()
+	if sh.constCache == nil {
+		sh.constCache = map[string][]string{}
+	}
+	if w, ok := sh.constCache[names]; ok {
+		return w
+	}
+	want := map[string]bool{}
+	for _, n := range strings.Split(names, ",") {
+		want[strings.TrimSpace(n)] = true
+	}
+	seen := map[string]bool{}
+	var scan func(f *ssa.Function)
+	scan = func(f *ssa.Function) {
+		for _, b := range f.Blocks {
+			for _, in := range b.Instrs {
+				for _, op := range in.Operands(nil) {
+					if c, ok := (*op).(*ssa.Const); ok && c.Value != nil && c.Value.Kind() == constant.String {
+						v := constant.StringVal(c.Value)
+						if len(v) >= 1 && len(v) <= 40 {
+							seen[v] = true
+						}
+					}
+				}
+			}
+		}
+		for _, a := range f.AnonFuncs {
+			scan(a)
+		}
+	}
+	for f := range ssautil.AllFunctions(sh.prog) {
+		if f.Pkg != sh.pkg || f.Parent() != nil || strings.HasPrefix(f.Name(), "vp") {
+			continue
+		}
+		if want[f.Name()] {
+			scan(f)
+		}
+	}
+	var out []string
+	for v := range seen {
+		out = append(out, v)
+	}
+	sort.Strings(out)
+	sh.constCache[names] = out
+	return out
+}
